@@ -490,6 +490,14 @@ def random_trace(seed, tid, workdir, props):
             (top[i].connect(top[j])) if rng.random() < 0.5 else (top[j].connect(top[i]))
             bonds, nb, anchors, triple = bonds2, nb2, anchors2, triple2
     m = ExchangeMap(refmol, tgt, s)
+    # other maps built afterwards and kept alive (another scale, another target conformation, the same atom indexes):
+    # what a map does is fixed by its own construction, not by which map of the process was built last
+    decoys = []
+    if rng.random() < 0.5:
+        tgt_d = tgt.copy()
+        tgt_d.atoms_positions = centre + rng.uniform(-1, 1, (nt, 3))
+        decoys.append(ExchangeMap(refmol.copy(), tgt_d, float(rng.choice([0.3, 0.7, 1.5]))))
+        decoys.append(ExchangeMap(refmol.copy(), tgt.copy(), s + 0.25))
     # the map captures the construction conformations: later changes to the objects it was built from
     # (before its first use, too) must not matter.  From here on `refmol` is a copy holding the reference conformation.
     built_from = refmol
@@ -514,7 +522,8 @@ def random_trace(seed, tid, workdir, props):
     A = np.array([anchor_of.get(t, 0) for t in range(nt)])
     vec0 = tpos - pos[A]
     lawpt = pos[A] + s * vec0
-    out = m(refmol).atoms_positions
+    res0 = m(refmol)          # the returned molecule is kept: later applications of the map must not move it
+    out = res0.atoms_positions
     ev.append({'op': 'CallSame', 'finite': bool(np.isfinite(out).all()),
                'law': [bool(x) for x in (np.abs(out - lawpt).max(axis=1) <= 1e-9)]})
     if n == 2:
@@ -556,13 +565,16 @@ def random_trace(seed, tid, workdir, props):
             out2 = m(ref2).atoms_positions
             fin = bool(np.isfinite(out2).all())
             exp = lawpt @ R.T + tau
+            # the same comparison with the image of the unmoved reference as the caller holds it (a Molecule returned earlier)
+            held = res0.atoms_positions @ R.T + tau
             vec = out2 - (pos[A] @ R.T + tau)
             dist = np.linalg.norm(vec, axis=1)
             ax = (vec * (axes @ R.T)).sum(axis=1)
             rad2 = (vec * vec).sum(axis=1) - ax ** 2
             rad2e = d_exp ** 2 - ax_exp ** 2
             ev.append({'op': 'CallRigid', 'finite': fin,
-                       'eq': [bool(x) for x in (np.abs(out2 - exp).max(axis=1) <= 1e-8 + cond_slack(pos @ R.T + tau))] if fin else [False] * nt,
+                       'eq': [bool(x) for x in (np.maximum(np.abs(out2 - exp).max(axis=1), np.abs(out2 - held).max(axis=1))
+                                                <= 1e-8 + cond_slack(pos @ R.T + tau))] if fin else [False] * nt,
                        'dist': [bool(x) for x in (np.abs(dist - d_exp) <= 1e-8)] if fin else [False] * nt,
                        'axial': [bool(x) for x in (np.abs(ax - ax_exp) <= 1e-8)] if fin else [False] * nt,
                        'radial': [bool(x) for x in (np.abs(rad2 - rad2e) <= 4e-8 * np.maximum(d_exp, 1e-2) + 1e-12)]
